@@ -11,6 +11,7 @@ From Coq Require Import List String Ascii Bool Arith.
 From Spil Require Import Base.Str Base.Dict Base.Outcome Base.PyPath Resolva.Resolver Conf.Conf Conf.Routing Conf.WF Sid.Sid
   Search.Unfold Search.Finders FS.Fs Data.Data Data.Crash Path.PathProofs Data.DataProofs Data.CrashProofs
   Sid.SidProofs Path.UnambiguousDefs Path.UnambiguousProofs.
+From Spil Require Import Path.RootDefs Path.RootLemmas Path.RootProofs.
 From SpilGen Require Hamlet.
 Import ListNotations.
 Local Open Scope string_scope.
@@ -92,3 +93,32 @@ Example C05_dot_value_shares_path :
   end = true.
 Proof. vm_compute. reflexivity. Qed.
 Print Assumptions C05_dot_value_shares_path.
+
+(** ** the paths of one Sid under two configurations differ only by the configured root (Path/RootProofs.v) *)
+
+(* for EVERY Sid (no guard on it): if the two loaded path configurations are the same up to the leading literal root
+   ([same_up_to_root]: same template names and keys in the same order, every template the other one with r1 replaced by r2, same
+   mapping and defaults), the paths differ by exactly that prefix, None corresponds to None and errors to errors *)
+Theorem C05_root_only :
+  forall (c : Conf) (Ld : Loaded) (cfg1 cfg2 : string) (lp1 lp2 : LoadedPath) (r1 r2 : string) (x : sid),
+  load c = Some Ld ->
+  get_path_config Ld cfg1 = Ok lp1 ->
+  get_path_config Ld cfg2 = Ok lp2 ->
+  same_up_to_root lp1 lp2 r1 r2 = true ->
+  (forall p1 : string,
+   sid_path Ld x cfg1 = Ok (Some p1) -> exists rel : string, p1 = r1 ++ rel /\ sid_path Ld x cfg2 = Ok (Some (r2 ++ rel))) /\
+  (forall p2 : string,
+   sid_path Ld x cfg2 = Ok (Some p2) -> exists rel : string, p2 = r2 ++ rel /\ sid_path Ld x cfg1 = Ok (Some (r1 ++ rel))) /\
+  (sid_path Ld x cfg1 = Ok None <-> sid_path Ld x cfg2 = Ok None) /\
+  (forall e : exn, sid_path Ld x cfg1 = Raise e <-> sid_path Ld x cfg2 = Raise e).
+Proof. exact paths_differ_only_by_root. Qed.
+Print Assumptions C05_root_only.
+
+(* the path configurations of this run, pairwise against the first one, with their roots computed from the templates *)
+Example C05_roots_here :
+  match l_paths Hamlet.the_loaded with
+  | lp1 :: rest => forallb (fun lp2 => same_up_to_root lp1 lp2 (root_of lp1) (root_of lp2)) rest && negb (match rest with [] => true | _ => false end)
+  | [] => false
+  end = true.
+Proof. vm_compute. reflexivity. Qed.
+Print Assumptions C05_roots_here.
